@@ -303,7 +303,11 @@ def modes(ctx, case):
                     """the child process, executed inside whatever call waits for it (subprocess.run / Popen.wait); it hands the
                     baton back to the parent at every point where real time would pass"""
                     for c in list(chunks):
-                        pipe.write(c)
+                        # a pipe holds a finite amount (whatever its size, some stream is longer): a BLOCKING write end - what os.pipe() gives -
+                        # makes the writer wait, nothing is lost; on a write end switched to non-blocking the write fails with EAGAIN once unread data
+                        # fills the pipe (modelled with the smallest capacity: one chunk), and a program does not retry writes to its stderr
+                        if not (1002 in st.get('nonblocking', ()) and pipe.buf):
+                            pipe.write(c)
                         chunks.remove(c)
                         if sched == 'chunk-per-block':
                             W.pause('wrote-chunk')
@@ -365,6 +369,14 @@ def modes(ctx, case):
                     def fdopen(fd, mode='r', *a, **k):
                         st['fdopened'].append((fd, mode))
                         return FakeTextIO(pipe)
+
+                    @staticmethod
+                    def set_blocking(fd, blocking):
+                        (st.setdefault('nonblocking', set()).discard if blocking else st.setdefault('nonblocking', set()).add)(fd)
+
+                    @staticmethod
+                    def get_blocking(fd):
+                        return fd not in st.get('nonblocking', ())
 
                     @staticmethod
                     def close(fd):
